@@ -155,6 +155,18 @@ def assumptions(pid, names, log):
     return rc, res, out
 
 
+def coqchk(pid, log):
+    """independent re-check of the compiled property file and everything it depends on (thorough tier)"""
+    rc, out, dt = sh(["coqchk", "-silent", "-o"] + COQFLAGS + ["GV.Properties.%s" % pid], cwd=COQ, timeout=2400)
+    log.append("coqchk rc=%d %.1fs" % (rc, dt))
+    summ = {}
+    m = re.search(r"CONTEXT SUMMARY\s*=+\s*(.*)", out, re.S)
+    if m:
+        for key, val in re.findall(r"\* ([^:\n]+):\s*([^*]*)", m.group(1)):
+            summ[key.strip()] = " ".join(val.split())
+    return rc, summ, out, dt
+
+
 def load_known(pid):
     known, fixed = {}, []
     fn = os.path.join(VERIF, "known_findings.jsonl")
@@ -256,6 +268,14 @@ def main():
                 extra = [x for x in a if not any(x.startswith(al) for al in allowed) and ":" in x]
                 if extra:
                     broken.append({"kind": "T", "what": "theorem %s depends on axioms: %s" % (n, extra)})
+    chk = None
+    if proofs_ok and tier == "thorough" and not replay:
+        rcc, summ, outc, dtc = coqchk(pid, log)
+        chk = {"rc": rcc, "seconds": round(dtc, 1), "summary": summ}
+        if rcc != 0:
+            broken.append({"kind": "T", "what": "coqchk rejects the compiled development: " + outc.strip()[-300:]})
+        elif summ.get("Axioms", "<none>") != "<none>":
+            broken.append({"kind": "T", "what": "coqchk reports axioms: " + summ.get("Axioms", "")})
     # 4. harness on the real code
     hcmd = [os.path.join(WORK, "bin", "harness"), pid, "-seed", str(seed), "-tier", tier, "-out", outdir, "-repo", REPO]
     if replay:
@@ -352,6 +372,7 @@ def main():
             "trusted_base": cfg.get("trusted_base", []) + COMMON_TB,
             "theorems": thms, "nonvacuity_examples": examples,
             "axioms": axioms,
+            "coqchk": chk,
             "supporting_lemmas": count_lemmas(cfg),
             # executions on the real code: cases (programs / histories / pools), or the finer-grained
             # oracle applications the harness counted; never fewer than the distinct cases it counted
